@@ -293,6 +293,11 @@ func ArrayRules.LexicalOrderWithoutDupsValidator$1
   ensures r0 != nil ==> *prev == old(*prev) && *prevIndex == old(*prevIndex)
 func ArrayRules.AtMostOneOfEachTypeValidator
   requires true
+-- the validator it returns looks at the type denotation of an element only as far as the element reaches (a short element
+-- is an error, not a panic), for both widths of the denotation
+func ArrayRules.AtMostOneOfEachTypeValidator$1
+  requires typeDenotation != nil && seen != nil && *seen != nil && (*typeDenotation == TypeDenotationUint32 || *typeDenotation == TypeDenotationByte)
+  modifies everything
 func ArrayValidationMode.HasMode
   ensures r0 <==> bitand(av, mode) > 0
 
